@@ -38,8 +38,12 @@ def objSummary (w : World) (o : Obj) : String :=
     | some none => "none"
     | some (some d) => "d:" ++ ",".intercalate (d.map fun (p : Nat × Nat) => s!"{p.1}={p.2}")
   let xy := ",".intercalate ((coords w o).map fun p => s!"{p.1}:{p.2.1}:{p.2.2}")
+  -- the executable well-formedness check the theorems `wf_*` are about: live graph and transaction snapshot
+  let wf : Bool := o.mol.WF && (match o.backup with
+    | some (some b) => b.mol.WF
+    | _ => true)
   s!"obj keys={keys} changed={showSlotList o.changed} backup={bk} name={nm} meta={mt} lfresh={if labelsFresh c then 1 else 0} " ++
-  s!"coh={if coherent c then 1 else 0} stale={stale} hstale={hst} xy={xy} mol={(maskMol o.mol).render}"
+  s!"coh={if coherent c then 1 else 0} stale={stale} hstale={hst} xy={xy} wf={if wf then 1 else 0} mol={(maskMol o.mol).render}"
 
 def takeList (xs : List Int) : Option (List Nat × List Int) :=
   match xs with
